@@ -115,15 +115,12 @@ fn c18_varint_model_equivalence() {
 // ---------------------------------------------------------------------------------------------
 // malformed values: a transport-parameter error, never a panic
 
-/// Mirrors io.rs:173-175, the only lines between the framing of a parameter and `set`:
-///     let (remain, v) = be_parameter_value(value, id).map_err(|e| handle_nom_error(value, e))?;
-///     assert!(remain.is_empty(), "Parameter value should consume all data");
-/// followed by the conversion every `?` in parse_from_bytes applies (param::Error -> QuicError).
+/// The REAL glue between the framing of a parameter and `set` (io.rs `be_exact_parameter_value`,
+/// called by both `parse_from_bytes` and `try_from_remembered_bytes`), followed by the conversion
+/// every `?` in parse_from_bytes applies (param::Error -> QuicError). On the pinned tree these were
+/// three inline lines with two reachable `assert!`s (genuine defects, fixed in /repo).
 fn glue(value: &[u8], id: ParameterId) -> Result<ParameterValue, QuicError> {
-    let (remain, v) = be_parameter_value(value, id)
-        .map_err(|nom_error| QuicError::from(handle_nom_error(value, nom_error)))?;
-    assert!(remain.is_empty(), "Parameter value should consume all data (io.rs:175)");
-    Ok(v)
+    be_exact_parameter_value(value, id).map_err(QuicError::from)
 }
 
 /// RFC 9000 §16 varint of a value slice, written independently: (value, encoded length).
